@@ -117,7 +117,13 @@ def append_data_vectors(sampleset, **vectors):
         except (TypeError, AttributeError):
             raise ValueError("Field value type not supported.")
 
-    return SampleSet(record, sampleset.variables, sampleset.info, sampleset.vartype)
+    if record is sampleset.record:
+        # no vectors were given, we still want to return a new sample set
+        record = record.copy()
+
+    return SampleSet(record, sampleset.variables,
+                     copy.deepcopy(sampleset.info),  # make a copy
+                     sampleset.vartype)
 
 def append_variables(sampleset, samples_like, sort_labels=True):
     """Create a new :obj:`.SampleSet` with the given variables and values.
@@ -1429,7 +1435,8 @@ class SampleSet(abc.Iterable, abc.Sized):
             (pred(datum) for datum in self.data(sorted_by=None, sample_dict_cast=False)),
             count=len(self), dtype=bool)
 
-        return type(self)(self.record[keep], self.variables, self.info, self.vartype)
+        return type(self)(self.record[keep], self.variables,
+                          copy.deepcopy(self.info), self.vartype)
 
     def relabel_variables(self, mapping, inplace=True):
         """Relabel the variables of a :class:`SampleSet` according to the specified mapping.
